@@ -330,6 +330,22 @@ func recordLimit(p *core.Prog, r *core.Run, m *echModel, rule string) {
 		return
 	}
 	fullReads(p, r, rr, rule)
+	// the record reader refuses a record for one reason only, its length: any
+	// record type, known or not, is passed on (the stream is the peer's)
+	nMade := 0
+	for _, ret := range core.Returns(rr) {
+		e := p.X(retErr(ret))
+		made := false
+		for _, a := range e.Alts() {
+			if a.Op == "call" && (a.Name == "fmt.Errorf" || a.Name == "errors.New") || a.Op == "global" && strings.HasPrefix(a.Name, "ech.") {
+				made = true
+			}
+		}
+		if made {
+			nMade++
+		}
+	}
+	r.Check(rule, "readRecord:one-refusal", nMade == 1, p.Pos(rr.Pos()), "the record reader makes an error of its own in one place, the length limit (found %d); everything else it returns is the transport's error", nMade)
 	for _, fn := range []*ssa.Function{rr, m.write} {
 		n := 0
 		for _, b := range fn.Blocks {
